@@ -39,6 +39,7 @@ type Conn struct {
 	rbuf    []byte
 	waiting bool // the server's reader is blocked in Read with nothing buffered
 	rclosed bool
+	maxRead int // if > 0, a Read returns at most this many bytes (segmentation of the client's byte stream)
 
 	mu      sync.Mutex
 	out     bytes.Buffer
@@ -60,6 +61,9 @@ func (c *Conn) Read(p []byte) (int, error) {
 	c.waiting = false
 	if len(c.rbuf) == 0 {
 		return 0, io.EOF
+	}
+	if c.maxRead > 0 && len(p) > c.maxRead {
+		p = p[:c.maxRead]
 	}
 	n := copy(p, c.rbuf)
 	c.rbuf = c.rbuf[n:]
@@ -248,6 +252,13 @@ func (cl *Client) Headers(id uint32, decl int64, end bool) []byte {
 		fl |= 1
 	}
 	return Frame(THeaders, fl, id, append([]byte(nil), cl.hbuf.Bytes()...))
+}
+
+// Chunk makes every Read of the server return at most k bytes (0 = unlimited).
+func (cl *Client) Chunk(k int) {
+	cl.C.rmu.Lock()
+	cl.C.maxRead = k
+	cl.C.rmu.Unlock()
 }
 
 // Sync returns true when every frame sent so far has been processed by the serve loop (the server's
